@@ -903,6 +903,7 @@ class EPRSocket(abc.ABC):
                 ent_results_array,
                 output,
                 pair,
+                qubits,
             ) = self.conn.builder._pre_epr_context(
                 role=EPRRole.RECV,
                 params=EntRequestParams(
@@ -921,6 +922,7 @@ class EPRSocket(abc.ABC):
                 loop_register=loop_register,
                 ent_results_array=ent_results_array,
                 pair=pair,
+                qubits=qubits,
             )
 
     def _get_node_id(self, app_name: str) -> int:
